@@ -25,6 +25,7 @@ import (
 	minttypes "github.com/cosmos/cosmos-sdk/x/mint/types"
 	slashingtypes "github.com/cosmos/cosmos-sdk/x/slashing/types"
 	stakingtypes "github.com/cosmos/cosmos-sdk/x/staking/types"
+	transfertypes "github.com/cosmos/ibc-go/v8/modules/apps/transfer/types"
 	ibcexported "github.com/cosmos/ibc-go/v8/modules/core/exported"
 	coretypes "github.com/cosmos/ibc-go/v8/modules/core/types"
 	evmtypes "github.com/evmos/ethermint/x/evm/types"
@@ -80,6 +81,16 @@ type Config struct {
 	MinSignedPct    int64             `json:"min_signed_pct"`
 	NoInflation     bool              `json:"no_inflation"`
 	NodeOpts        map[string]string `json:"node_opts,omitempty"`
+	IbcVoucher      *IbcVoucherCfg    `json:"ibc_voucher,omitempty"`
+}
+
+// IbcVoucherCfg: IBC history that exists at genesis in a bridge world - a voucher received over
+// (transfer, Chan) earlier, part of which sits in the transfer module account (the stock out of
+// which deposits with an IBC target are paid when the voucher is an alias of a bridged token).
+type IbcVoucherCfg struct {
+	Chan        string `json:"chan"`         // e.g. channel-0
+	Base        string `json:"base"`         // base denom on the source chain, e.g. xusd
+	ModuleStock string `json:"module_stock"` // vouchers held by the transfer module account
 }
 
 func DefaultChainCfg(name string) ChainCfg {
@@ -395,6 +406,21 @@ func (w *World) buildGenesis() ([]byte, error) {
 	}
 
 	// deterministic JSON (map keys sorted by encoding/json)
+	if v := cfg.IbcVoucher; v != nil {
+		var bankGen banktypes.GenesisState
+		cdc.MustUnmarshalJSON(gs[banktypes.ModuleName], &bankGen)
+		var trGen transfertypes.GenesisState
+		cdc.MustUnmarshalJSON(gs[transfertypes.ModuleName], &trGen)
+		path := "transfer/" + v.Chan
+		trGen.DenomTraces = append(trGen.DenomTraces, transfertypes.DenomTrace{Path: path, BaseDenom: v.Base}).Sort()
+		if amt, ok := sdkmath.NewIntFromString(v.ModuleStock); ok && amt.IsPositive() {
+			c := sdk.NewCoin(transfertypes.DenomTrace{Path: path, BaseDenom: v.Base}.IBCDenom(), amt)
+			bankGen.Balances = append(bankGen.Balances, banktypes.Balance{Address: authtypes.NewModuleAddress(transfertypes.ModuleName).String(), Coins: sdk.NewCoins(c)})
+			bankGen.Balances = banktypes.SanitizeGenesisBalances(bankGen.Balances)
+		}
+		gs[banktypes.ModuleName] = cdc.MustMarshalJSON(&bankGen)
+		gs[transfertypes.ModuleName] = cdc.MustMarshalJSON(&trGen)
+	}
 	return json.Marshal(gs)
 }
 
